@@ -578,7 +578,9 @@ func (V *Verifier) discharge(o *Oblig, sums map[string]*SumFn, dir string) {
 	}
 	runStage(stageA, len(stageB)+len(stageC) > 0)
 	runStage(stageB, false)
-	if atomic.LoadInt32(&definiteFailures) >= 3 && !o.Vacuity {
+	if isKnownOpen(o.Name) && !o.Vacuity {
+		details = append(details, "stageC:skipped(open-known-finding)")
+	} else if atomic.LoadInt32(&definiteFailures) >= 3 && !o.Vacuity {
 		// the run already has three obligations that every configuration failed to discharge: its verdict is a
 		// violation whatever the remaining ones say; the slow last stage is skipped for them to keep mutant runs short
 		// (never happens on a tree where everything discharges)
@@ -589,7 +591,7 @@ func (V *Verifier) discharge(o *Oblig, sums map[string]*SumFn, dir string) {
 	o.Time = time.Since(t0).Seconds()
 	sort.Strings(details)
 	o.Detail = strings.Join(details, " ")
-	if got == "" && !o.Vacuity {
+	if got == "" && !o.Vacuity && !isKnownOpen(o.Name) {
 		atomic.AddInt32(&definiteFailures, 1)
 	}
 	if got != "" {
